@@ -312,7 +312,7 @@ Lemma tlc_certificate : forall cfg st m st1 r, c_gm cfg = false -> cs_phase st =
   client_handshake_step cfg st m = (st1, r) ->
   exists c0 rest,
     m = MCertificate (c0 :: rest) /\ r = SContinue /\ forallb is_cert (c0 :: rest) = true /\
-    (c_verify cfg = true -> mem (cert_id c0) (c_trusted cfg) = true) /\
+    (c_verify cfg = true -> tmem c0 (c_trusted cfg) = true) /\
     ((cert_kind c0 =? KIND_RSA) || (cert_kind c0 =? KIND_ECDSA) || (cert_kind c0 =? KIND_SM2)) = true /\
     st1 = mkCS CP_AfterCert (cs_warn st) (cs_vers st) (cs_fp st) (cs_sh st) (cs_kx st) (c0 :: rest) None false false
                (cs_master st) (cs_tr st ++ [enc_hmsg m]) (cs_out st).
@@ -321,7 +321,7 @@ Proof.
   destruct m; try (injection H as <- <-; cbad Hr).
   destruct certs as [|c0 rest]; [injection H as <- <-; cbad Hr|].
   destruct (forallb is_cert (c0 :: rest)) eqn:E1; cbn [negb] in H; [|injection H as <- <-; cbad Hr].
-  destruct (c_verify cfg && negb (mem (cert_id c0) (c_trusted cfg))) eqn:E2; [injection H as <- <-; cbad Hr|].
+  destruct (c_verify cfg && negb (tmem c0 (c_trusted cfg))) eqn:E2; [injection H as <- <-; cbad Hr|].
   destruct ((cert_kind c0 =? KIND_RSA) || (cert_kind c0 =? KIND_ECDSA) || (cert_kind c0 =? KIND_SM2)) eqn:E3;
     cbn [negb] in H; [|injection H as <- <-; cbad Hr].
   injection H as <- <-. exists c0, rest. repeat split; auto.
@@ -402,7 +402,7 @@ Definition tls_client_flight_ok (cfg : cconfig) (l : list input) (st' : cstate) 
         l1 = IHs (MCertificate certs) :: mid_inputs status skx req ++ IHs MServerHelloDone :: l2 /\
         (* every certificate parses, the leaf is verified when verification is on and has a key type the client supports *)
         forallb is_cert certs = true /\
-        (c_verify cfg = true -> mem (cert_id c0) (c_trusted cfg) = true) /\
+        (c_verify cfg = true -> tmem c0 (c_trusted cfg) = true) /\
         ((cert_kind c0 =? KIND_RSA) || (cert_kind c0 =? KIND_ECDSA) || (cert_kind c0 =? KIND_SM2)) = true /\
         (* CertificateStatus only when announced; a ServerKeyExchange must verify under the leaf over this session's randoms *)
         (status = true -> sh_ocsp sh = true) /\
